@@ -510,6 +510,21 @@ func VerifH_K_minmax() {
 	if n == 1 && !verifOpDefined(token.LSS, acc.kind) {
 		reason = verifRejOpUndef
 	}
+	// every untyped operand is converted to the type of the typed operands (not only the running
+	// extreme): min(1<<63, 0, int8(0)) overflows int8
+	if reason == verifOK {
+		for _, t := range ops {
+			if !t.typed {
+				continue
+			}
+			for i := range ops {
+				if r, _, _, _ := verifMatch(ops[i], t); r != verifOK {
+					reason = r
+				}
+			}
+			break
+		}
+	}
 	class, ret := verifCallBuiltin(name, elems)
 	anyTyped, anyUntyped, anyStr, differ := 0, 0, 0, 0
 	for i := range ops {
